@@ -216,7 +216,7 @@ def evaluate(limit, files=None):
         for l in open(donep):
             e = json.loads(l)
             done.add((e["file"], e["line"], e["col"], e["op"]))
-    d = os.path.join(W, "evalsrc")
+    d = os.path.join(W, "evalsrc.%d" % os.getpid())
     n = 0
     # relational / arithmetic / logic mutants first, statement deletions last (many of those are leaks only)
     forder = {f: i for i, f in enumerate(FILES)}
